@@ -10,6 +10,7 @@ import (
 	"github.com/scrapli/scrapligo/response"
 
 	"github.com/scrapli/scrapligo/util"
+	"github.com/scrapli/scrapligo/util/simhook"
 )
 
 // NewCallback returns a Callback object with provided options applied.
@@ -171,9 +172,13 @@ func (d *Driver) handleCallbacks(
 	c := make(chan *callbackResult)
 
 	go func() {
+		simhook.Enter("cb.reader")
+
 		defer close(c)
 
 		for {
+			simhook.Poll("cb.poll")
+
 			select {
 			case <-ctx.Done():
 				return
@@ -206,6 +211,8 @@ func (d *Driver) handleCallbacks(
 			}
 		}
 	}()
+
+	simhook.Yield("cb.wait")
 
 	select {
 	case r := <-c:
